@@ -345,7 +345,14 @@ impl LambdaDef {
 
     pub fn get_arity(&self) -> FunctionArity {
         let has_rest = self.args.iter().any(|arg| arg.is_rest());
-        let min = self.args.iter().filter(|arg| arg.is_required()).count();
+        // Every required parameter must be supplied, wherever it stands in the list: the
+        // minimum is one past the last required position (equal to the number of required
+        // parameters for the documented `required, optional, rest` order).
+        let min = self
+            .args
+            .iter()
+            .rposition(|arg| arg.is_required())
+            .map_or(0, |i| i + 1);
         let max = self.args.len();
 
         if has_rest {
